@@ -95,18 +95,27 @@ func (k *Key) CoqFull() string {
 	return fmt.Sprintf("(mkKey %d %d %s %s %s)", k.Ty, k.Curve, k.X.String(), k.Y.String(), hx.CoqBytes(k.Ser))
 }
 
-// Pool is the set of named keys of a run.
+// Pool is the set of named keys of a run, plus named byte strings.
 type Pool struct {
 	Keys     []*Key
 	byID     map[string]*Key
-	first    map[string][]*Key
 	ByKind   map[string][]*Key
-	blobs    map[string]string // named byte strings (whole-string matches are printed by name)
+	blobs    map[string]string // named byte strings (global: defined in the header of the case file)
 	BlobDefs []string          // their Coq definitions, in order
+	local    map[string]string // named byte strings of the case being rendered (let-bound)
+	localDef []string
+	index    map[string][]named // first 4 bytes -> named strings (keys, global and local blobs)
+	localIdx map[string][]named
+}
+
+type named struct {
+	b    []byte
+	term string
 }
 
 func NewPool() *Pool {
-	return &Pool{byID: map[string]*Key{}, first: map[string][]*Key{}, ByKind: map[string][]*Key{}, blobs: map[string]string{}}
+	return &Pool{byID: map[string]*Key{}, ByKind: map[string][]*Key{}, blobs: map[string]string{},
+		local: map[string]string{}, index: map[string][]named{}, localIdx: map[string][]named{}}
 }
 
 // Blob names a byte string that many cases share (scripts, signatures, hashes of the
@@ -123,6 +132,41 @@ func (p *Pool) Blob(b []byte) {
 	name := fmt.Sprintf("bl%d", len(p.blobs))
 	p.blobs[string(b)] = name
 	p.BlobDefs = append(p.BlobDefs, fmt.Sprintf("Definition %s : bytes := %s.", name, def))
+	p.index[string(b[:4])] = append(p.index[string(b[:4])], named{append([]byte{}, b...), name})
+}
+
+// BeginCase forgets the let-bound names of the previous case.
+func (p *Pool) BeginCase() {
+	p.local = map[string]string{}
+	p.localDef = nil
+	p.localIdx = map[string][]named{}
+}
+
+// Local let-binds a byte string for the case being rendered (strings of 16 bytes or more that
+// occur several times in one case: a changed signature, key or script).
+func (p *Pool) Local(b []byte) {
+	if len(b) < 16 {
+		return
+	}
+	if _, ok := p.blobs[string(b)]; ok {
+		return
+	}
+	if _, ok := p.local[string(b)]; ok {
+		return
+	}
+	def := p.CB(b)
+	if !strings.Contains(def, "[") {
+		return // already a name or a concatenation of names
+	}
+	name := fmt.Sprintf("x%d", len(p.local))
+	p.local[string(b)] = name
+	p.localDef = append(p.localDef, fmt.Sprintf("let %s := %s in ", name, def))
+	p.localIdx[string(b[:4])] = append(p.localIdx[string(b[:4])], named{append([]byte{}, b...), name})
+}
+
+// WrapCase puts the let-bindings in front of a case term.
+func (p *Pool) WrapCase(term string) string {
+	return "(" + strings.Join(p.localDef, "") + term + ")"
 }
 
 func (p *Pool) Add(k *Key) *Key {
@@ -133,7 +177,7 @@ func (p *Pool) Add(k *Key) *Key {
 	p.Keys = append(p.Keys, k)
 	p.byID[k.id()] = k
 	if len(k.Ser) >= 4 {
-		p.first[string(k.Ser[:4])] = append(p.first[string(k.Ser[:4])], k)
+		p.index[string(k.Ser[:4])] = append(p.index[string(k.Ser[:4])], named{k.Ser, "pk_ser " + k.Name})
 	}
 	p.ByKind[k.Kind] = append(p.ByKind[k.Kind], k)
 	return k
@@ -147,7 +191,7 @@ func (p *Pool) Coq(k *Key) string {
 	if q, ok := p.byID[k.id()]; ok {
 		return q.Name
 	}
-	return k.CoqFull()
+	return fmt.Sprintf("(mkKey %d %d %s %s %s)", k.Ty, k.Curve, k.X.String(), k.Y.String(), p.CB(k.Ser))
 }
 
 func (p *Pool) CoqKeys(ks []*Key) string {
@@ -158,10 +202,29 @@ func (p *Pool) CoqKeys(ks []*Key) string {
 	return hx.CoqList(out)
 }
 
-// CB prints a byte string as a Coq term of type bytes, writing every occurrence of a pool key's
-// serialization as `pk_ser pkN` and every run of 12 or more equal bytes as `repeat`.
+func (p *Pool) longest(b []byte, i int) (hit named, ok bool) {
+	if i+4 > len(b) {
+		return
+	}
+	f := string(b[i : i+4])
+	for _, tab := range []map[string][]named{p.index, p.localIdx} {
+		for _, e := range tab[f] {
+			if len(e.b) > len(hit.b) && i+len(e.b) <= len(b) && bytes.Equal(b[i:i+len(e.b)], e.b) {
+				hit, ok = e, true
+			}
+		}
+	}
+	return
+}
+
+// CB prints a byte string as a Coq term of type bytes, writing every occurrence of a named
+// string (pool key serializations, global and let-bound byte strings) by its name and every run
+// of 12 or more equal bytes as `repeat`.
 func (p *Pool) CB(b []byte) string {
 	if name, ok := p.blobs[string(b)]; ok {
+		return name
+	}
+	if name, ok := p.local[string(b)]; ok {
 		return name
 	}
 	if len(b) < 12 {
@@ -175,19 +238,10 @@ func (p *Pool) CB(b []byte) string {
 		}
 	}
 	for i := 0; i < len(b); {
-		var hit *Key
-		if i+4 <= len(b) {
-			for _, k := range p.first[string(b[i:i+4])] {
-				if i+len(k.Ser) <= len(b) && bytes.Equal(b[i:i+len(k.Ser)], k.Ser) {
-					hit = k
-					break
-				}
-			}
-		}
-		if hit != nil {
+		if hit, ok := p.longest(b, i); ok {
 			flush(i)
-			segs = append(segs, "pk_ser "+hit.Name)
-			i += len(hit.Ser)
+			segs = append(segs, hit.term)
+			i += len(hit.b)
 			lit = i
 			continue
 		}
@@ -209,7 +263,7 @@ func (p *Pool) CB(b []byte) string {
 		return "[]"
 	}
 	if len(segs) == 1 {
-		if !strings.HasPrefix(segs[0], "[") {
+		if !strings.HasPrefix(segs[0], "[") && strings.Contains(segs[0], " ") {
 			return "(" + segs[0] + ")"
 		}
 		return segs[0]
